@@ -149,6 +149,12 @@ def oracle(case, rec):
                     if not rec.check(sc.shape == (len(c),), 'smooth_ranking:shape', sc.shape):
                         continue
                     if np.any(np.isnan(sc)):
+                        # undefined only if a fit the SELECTED mode needs is undefined (constant segment of
+                        # >= 3 points); a NaN where the model says every such fit is well defined is a wrong score
+                        ref0, well0 = model_scores(p, c, mode)
+                        if well0 and all(v is not None for v in ref0):
+                            rec.fail('smooth_ranking:nan-score-although-every-fit-of-the-mode-is-defined',
+                                     'cluster %r mode=%s impl %r model %r' % (c, mode, sc.tolist(), ref0))
                         rec.tag('nan-score-cluster')
                         continue
                     rec.check(sc[c.index(chosen)] == sc.max(), 'clusters:chosen-member-not-max-score',
